@@ -6,7 +6,11 @@ Translated, from traits/trait_dict_object.py and traits/trait_set_object.py of t
   * every mutator `TraitSet` defines,
   * every mutator `TraitDictObject` / `TraitSetObject` define (none in the pinned tree: the lists are empty),
   * `TraitSetObject._validator` (the item validator of a `Set` trait value; not a mutator, but what
-    decides whether a deep copy / an orphaned value still validates).
+    decides whether a deep copy / an orphaned value still validates),
+  * the statement texts (`ast.unparse`, docstrings dropped) of `__new__` / `__init__` of the four classes:
+    the constructors decide by `is None` tests whether a validator / a notifier list was given and whether
+    there is an owner; the models assume exactly these statements (`C06_init_source`, `C07_init_source`
+    compare them literally, so any edit — a truth test instead of `is None` in particular — breaks them).
 Emits Generated/MapSetProg.lean.  Props/C06 and Props/C07 prove that the hand-written models
 `Map.TraitDict.step` / `SetM.TraitSet.step` are the interpretation of these terms.
 
@@ -396,6 +400,15 @@ def emit(traits_dir):
         mo = methods_of(classes[obj])
         parts.append((pfx + "ObjectProg", "the mutators `%s` defines" % obj,
                       [Fn(mo[m], notify_params).emit() for m in mutators if m in mo]))
+        for cname, cms in ((base, ms), (obj, mo)):
+            for m in ("__new__", "__init__"):
+                if m in cms:
+                    body = [x for x in cms[m].body
+                            if not (isinstance(x, ast.Expr) and isinstance(x.value, ast.Constant)
+                                    and isinstance(x.value.value, str))]
+                    sig = "def %s(%s)" % (m, ast.unparse(cms[m].args))
+                    parts.append(("%s%sSource" % (cname[0].lower() + cname[1:], m.strip("_").capitalize()), None,
+                                  [sig] + [" ".join(ast.unparse(x).split()) for x in body]))
         if obj == "TraitSetObject":
             if "_validator" not in mo:
                 raise Unknown("TraitSetObject._validator not found")
@@ -408,7 +421,8 @@ def emit(traits_dir):
         if doc == "func":
             lines += ["/-- `TraitSetObject._validator` -/", "def %s : Func :=" % dname, rows, ""]
         elif doc is None:
-            lines += ["def %s : List String := [%s]" % (dname, ", ".join('"%s"' % r for r in rows)), ""]
+            lines += ["def %s : List String := [%s]" % (dname, ",\n  ".join(
+                '"%s"' % r.replace("\\", "\\\\").replace('"', '\\"') for r in rows)), ""]
         else:
             lines += ["/-- %s -/" % doc, "def %s : List (String × Func) := [" % dname, ",\n".join(rows), "]", ""]
     lines.append("end TraitsVerif.Generated")
